@@ -133,6 +133,14 @@ def run(res, tier, seed):
         res.add_lemma(a, "NoError", "full-depth (8/16-bit components, precisions 4..45) version of the monotonicity / range lemma")
         if a["result"] != "NoError":
             raise vlib.ToolError("lemma FixedLemmas!%s: %s" % (inv, a["result"]))
+    # the premises of the lemmas on the tables the resizer really uses for the four non-negative filters: every quantised
+    # coefficient non-negative, every window inside the unity band, accumulator within its budget (extreme scales included)
+    import coeffs
+    ccases = [c for c in coeffs.lattice(tier, random.Random(seed + 17), purpose="unity") if c["filter"] in NONNEG]
+    cbad = coeffs.run_coeff_trace(res, "c18", ccases)
+    for (c, r, reason) in cbad:
+        res.violation(what="C18 coefficients " + reason, reason=reason, filter=c["filter"], geom=[c["in"], c["out"]], norm=c.get("norm"), case=coeffs.describe(c))
+    res.cov["coefficient_tables"] = len(ccases)
     cases = gen(tier, rng)
     bad, recs = rz.run_resize_trace(res, "c18", cases)
     report(res, "C18", bad)
